@@ -88,7 +88,9 @@ def gen_case(rng):
         text = ' ##### Part 9\n##### Part \n' + text
         plants = [(s, k, l + 2) for s, k, l in plants]
     steps = ['separate']
-    visit = nsec + rng.choice([0, 0, 1, 2])
+    # how far the script goes: usually through every section (and sometimes past the end), sometimes it stops early - also right
+    # after the prologue, without any next_section()
+    visit = rng.choice([nsec, nsec, nsec + 1, nsec + 2, rng.randrange(0, nsec + 1), 0])
     for sec in range(visit + 1):
         if sec > 0:
             steps.append('next')
